@@ -683,6 +683,28 @@ def r5(ctx):
                         continue
                     rule.analysed(cb)
                     ok, detail = _excludes_nonce(facts, cb, 0)
+        if not filt:
+            # the exclusion as a test inside the loop (`if message_nonce.as_ref() == Some(req.packet().message_nonce()) { continue }`):
+            # from the iterator's `next`, encrypt_message is reached only over an edge on which the two nonces differ
+            rg = Guards(rb, rp)
+            differ = []
+            is_pkt_nonce = lambda s_: bool(re.search(r"Packet::message_nonce\(.*RequestCall::packet\(", s_) or re.search(r"packet\(.*\)\.header\.message_nonce", s_))
+            for sbi, st, se in rg.switches():
+                c = comparison(se)
+                if not c or c[0] not in ("==", "!="):
+                    continue
+                sides = [fmt(canon(c[1]), -40), fmt(canon(c[2]), -40)]
+                if sum(1 for s_ in sides if is_pkt_nonce(s_)) != 1:
+                    continue
+                other = [s_ for s_ in sides if not is_pkt_nonce(s_)][0]
+                if "RequestCall" in other or "message_nonce" not in other:
+                    continue
+                f_e, t_e = rg.bool_edges(sbi)
+                differ.append((sbi, f_e if c[0] == "==" else t_e))
+            nexts = [nbi for nbi, nt in rb.calls() if callee_matches(nt, r"Iterator>::next$", r"Iterator::next$") and bi in rb.reachable(nbi)]
+            if differ and nexts:
+                ok = all(bi not in rb.reachable(nbi, removed_edges=differ) for nbi in nexts)
+                detail = "the request with the given nonce still reaches encrypt_message" if not ok else ""
         rule.check(ok, "replay_active_requests re-encrypts only requests whose packet nonce differs from the given one", "replay|filter",
                    "replay_active_requests does not exclude the request with the given nonce (%s): the request that carried the handshake is replayed" % detail, loc=rb.loc(t.line))
     return rule
